@@ -99,6 +99,14 @@ def generate(rng, tier):
             for sp in ("str", "upper", "member", "mixed"):
                 cases.append({"kind": "transform_key", "src": a.name, "dst": b.name, "spelling": sp})
     cases.append({"kind": "transform_key", "src": "MAP", "dst": "NOPE", "spelling": "bad"})
+    # further string-or-enum call sites: the evaluation task of LabelConverter and of FrameID.from_task
+    from perception_eval.common.evaluation_task import EvaluationTask
+
+    for t in EvaluationTask.__members__:
+        for prefix in ("autoware", "traffic_light"):
+            for merge in (False, True):
+                cases.append({"kind": "task_site", "site": "label_converter", "task": t, "prefix": prefix, "merge": merge})
+        cases.append({"kind": "task_site", "site": "frame_from_task", "task": t})
     return cases
 
 
@@ -152,6 +160,23 @@ def run_impl(case):
             ok = k1 == k2 and hash(k1) == hash(k2) and k1.src is a and k1.dst is b and h.src is a and h.dst is b
             return {"src": k1.src.name if isinstance(k1.src, FrameID) else None,
                     "dst": k1.dst.name if isinstance(k1.dst, FrameID) else None, "same": bool(ok)}
+        if k == "task_site":
+            from perception_eval.common.evaluation_task import EvaluationTask
+            from perception_eval.common.label import LabelConverter
+
+            t = EvaluationTask[case["task"]]
+
+            def run(arg):
+                try:
+                    if case["site"] == "label_converter":
+                        c = LabelConverter(arg, case["merge"], case["prefix"])
+                        return [[li.label.name, li.name] for li in c.label_infos] + [c.evaluation_task.name]
+                    return FrameID.from_task(arg).name
+                except Exception as e:  # noqa
+                    return {"err": type(e).__name__}
+
+            a, b = run(t.value), run(t)
+            return {"same": a == b, "str": a if a != b else None, "enum": b if a != b else None}
     except Exception as e:
         return {"err": type(e).__name__}
     raise ValueError(k)
@@ -159,6 +184,8 @@ def run_impl(case):
 
 def model_requests(case, out):
     k = case["kind"]
+    if k == "task_site":
+        return []
     if k == "parse":
         return [{"op": "parse", "parser": case["parser"], "s": case["s"]}]
     from perception_eval.common.schema import FrameID
@@ -234,6 +261,9 @@ def oracle(case, out):
         if case["spelling"] == "bad":
             return None if "err" in out else "TransformKey('map','nope') accepted"
         return None if out.get("same") else f"TransformKey/HomogeneousMatrix differ between spellings: {out}"
+    if k == "task_site":
+        return None if out.get("same") else (f"{case['site']} behaves differently for the task given as string "
+                                             f"{case['task'].lower()!r} and as enum member: {out.get('str')} vs {out.get('enum')}")
 
 
 def branches(case, out):
